@@ -33,6 +33,7 @@ ACH = {
     "ach2": dict(initial="disabled", rasp=False, ronb=True, eonb=False),
 }
 
+Q_ACH = ["q_a", "q_b"]        # achievements of m2, managed by achievement group ag of m1
 T1_END = 6
 DL_DELAY = 0.3
 
@@ -511,6 +512,9 @@ EFFECTS = {
     "ev_gift": [("m1", var_add("gift", 1), 1)],
     "ev_c_m2": [("m2", _p(counter_count, "c_m2"))],
     "ev_m2_str": [("m2", var_set("pv_str", "from_m2"))],
+    "ev_ag_rotate": [], "ev_ag_rotate_left": [], "ev_ag_start": [], "ev_ag_enable": [], "ev_ag_disable": [],
+    "ev_q_a_complete": [], "ev_q_b_stop": [],
+    "achievement_q_a_changed_state": [], "achievement_q_b_changed_state": [],
     "ev_m2_start": [],
     "ev_m2_stop": [],
     # events emitted by the devices themselves that the variable_player of m1 scores on
@@ -546,6 +550,16 @@ def model_load(x, mode):
             dev["c_np"] = [lb_start_value(name), False, False]
             if c["se"]:
                 dev["pending_enable"][mode].append(name)
+    if mode == "m2":
+        # q_a/q_b: created enabled, restored with the documented defaults; everything else that happens to them is
+        # driven by the achievement group in m1 and is not modelled (see R-group-havoc in the check)
+        if not x.ps["ach"]:
+            x.ps["ach"] = {}
+        for n in Q_ACH:
+            if n not in x.ps["ach"]:
+                x.ps["ach"][n] = ["enabled", False]
+            elif x.ps["ach"][n][0] == "started":
+                x.ps["ach"][n][0] = "stopped"
     if mode != "m1":
         return
     # a shot group's rotation starts from its config (enable_rotation_events => off) whenever its mode starts
